@@ -39,6 +39,13 @@ def match_known(prop, ob, known):
     return None
 
 
+SAFETY_RE = re.compile(r"\.(pointer_dereference|pointer_arithmetic|pointer_primitives|array_bounds|overflow|division-by-zero|conversion|undefined-shift|frees|assigns|unwind|precondition_instance|memory-leak|no-body|enum-range)\.|gmp: (use|clear) of a number|vsprintf: the destination|CAR size")
+
+
+def is_safety(ob):
+    return bool(SAFETY_RE.search(ob.pid + " " + ob.desc))
+
+
 def owners(g, ob):
     """which properties an obligation of group g belongs to"""
     if ob.pid in g.post_props:
@@ -240,6 +247,8 @@ def report(prop, tier, seed, groups, results, wall, ws, verbose=False, partial=F
                 continue
             if prop != "ALL" and prop not in owners(g, ob):
                 continue
+            if prop == "C17" and not is_safety(ob):
+                continue   # C17 = the union of the memory-safety / undefined-behaviour obligations of every group
             mine += 1
             n_obl += 1
             gs["obligations"] += 1
